@@ -87,6 +87,38 @@ def Slice.popAll (cmp : Int → Int → Bool) : Nat → List Int → Option (Lis
       | none => none
       | some (s2, xs) => some (s2, x :: xs)
 
+/-! ### the client-visible operations of `Slice[T]` as one step function
+
+`setFix i v` is the client's `s.Values[i] = v; s.Fix(i)` (the assignment itself panics when `i`
+is out of range). The driver runs exactly this function; `c04_slice_sequences` is about it. -/
+
+inductive SOp where
+  | push (x : Int)
+  | pop
+  | peek
+  | len
+  | remove (i : Int)
+  | fix (i : Int)
+  | setFix (i : Nat) (v : Int)
+  | popAll
+
+inductive SRet where
+  | unit
+  | val (x : Int) (ok : Bool)
+  | len (n : Nat)
+  | vals (xs : List Int)
+
+def stepS (cmp : Int → Int → Bool) (s : List Int) : SOp → Option (List Int × SRet)
+  | .push x => (Slice.push cmp s x).map fun s1 => (s1, .unit)
+  | .pop => (Slice.pop cmp s).map fun (s1, x, ok) => (s1, .val x ok)
+  | .peek => (Slice.peek s).map fun (x, ok) => (s, .val x ok)
+  | .len => some (s, .len s.length)
+  | .remove i => (Slice.remove cmp s i).map fun (s1, x, ok) => (s1, .val x ok)
+  | .fix i => (Slice.fix cmp s i).map fun s1 => (s1, .unit)
+  | .setFix i v =>
+    if i < s.length then (Slice.fix cmp (s.set i v) (i : Int)).map fun s1 => (s1, .unit) else none
+  | .popAll => (Slice.popAll cmp (s.length + 1) s).map fun (s1, xs) => (s1, .vals xs)
+
 /-! ### `Heap[T]` with `*Element[T]` handles
 
 One memory holds two heaps (`0`, `1`) and every element ever allocated: `idx` = `e.index`,
@@ -231,6 +263,44 @@ def HMem.popAll (cmp : Int → Int → Bool) (h : Nat) : Nat → HMem → Option
       | none => none
       | some (m2, xs) => some (m2, m1.val.get e :: xs)
 
+/-! ### the client-visible operations of `Heap[T]` as one step function
+
+`HOp` = one call a client can make on one of the two heaps (`h.val`), `HRet` = what it gets
+back.  `setFix h e v` is `e.Value = v; h.Fix(e)`.  The driver (`Model/C04.lean`) runs exactly
+this function; `c04_heap_handles` is stated about it. -/
+
+inductive HOp where
+  | init (h : Fin 2) (vs : List Int)
+  | push (h : Fin 2) (x : Int)
+  | pushElem (h : Fin 2) (e : Nat)
+  | pop (h : Fin 2)
+  | peek (h : Fin 2)
+  | len (h : Fin 2)
+  | remove (h : Fin 2) (e : Nat)
+  | fix (h : Fin 2) (e : Nat)
+  | setFix (h : Fin 2) (e : Nat) (v : Int)
+  | popAll (h : Fin 2)
+
+inductive HRet where
+  | unit
+  | handle (e : Option Nat)
+  | len (n : Nat)
+  | vals (xs : List Int)
+
+def stepH (cmp : Int → Int → Bool) (m : HMem) : HOp → Option (HMem × HRet)
+  | .init h vs => (m.init cmp h.val vs).map fun m1 => (m1, .unit)
+  | .push h x => (m.push cmp h.val x).map fun (m1, e) => (m1, .handle (some e))
+  | .pushElem h e => (m.pushElement cmp h.val e).map fun m1 => (m1, .unit)
+  | .pop h => (m.pop cmp h.val).map fun (m1, e) => (m1, .handle e)
+  | .peek h => (m.peek h.val).map fun e => (m, .handle e)
+  | .len h => some (m, .len (m.arr h.val).length)
+  | .remove h e => (m.remove cmp h.val e).map fun m1 => (m1, .unit)
+  | .fix h e => (m.fixElem cmp h.val e).map fun m1 => (m1, .unit)
+  | .setFix h e v =>
+    (({ m with val := m.val.set e v } : HMem).fixElem cmp h.val e).map fun m1 => (m1, .unit)
+  | .popAll h =>
+    (HMem.popAll cmp h.val ((m.arr h.val).length + 1) m).map fun (m1, xs) => (m1, .vals xs)
+
 /-! ### generic `Interface[T]` functions on a recording container
 
 The container is a slice with `Less(i, j) = cmp(data[i], data[j])`, `Swap`, `Push` (append),
@@ -259,44 +329,80 @@ def Rec.popLast (s : Rec) : Option (Rec × Int) :=
   | none => none
   | some x => some ({ s with data := s.data.take n.toNat }, x)
 
+/-! ### the generic functions over ANY `Interface[T]` implementation
+
+`Iface σ` = the five methods the generic functions call on a container with state `σ`
+(`Less`/`Swap` = `ops`, `Len`, `Push`, `Pop`; `none` = the method panics).  `GenI.*` mirror
+`std_heap.go` statement by statement without fixing the container; `Gen.*` below are their
+instances for the recording container of the harness. -/
+
+structure Iface (σ : Type) where
+  ops  : Ops σ
+  len  : σ → Int
+  push : σ → Int → σ
+  pop  : σ → Option (σ × Int)
+
 /-- `Init(h)` -/
-def Gen.init (cmp : Int → Int → Bool) (s : Rec) : Option Rec :=
-  build (recOps cmp) s s.data.length
+def GenI.init {σ : Type} (I : Iface σ) (s : σ) : Option σ :=
+  build I.ops s (I.len s)
 
-/-- `Push(h, x)` : `h.Push(x); std_up(h, h.Len()-1)` -/
-def Gen.push (cmp : Int → Int → Bool) (s : Rec) (x : Int) : Option Rec :=
-  let s1 := { s with data := s.data ++ [x] }
-  upF (recOps cmp) s1 ((s1.data.length : Int) - 1)
+/-- `Push(h, x)` -/
+def GenI.push {σ : Type} (I : Iface σ) (s : σ) (x : Int) : Option σ :=
+  let s1 := I.push s x
+  upF I.ops s1 (I.len s1 - 1)
 
-/-- `Pop(h)` : `n := h.Len() - 1; h.Swap(0, n); std_down(h, 0, n); return h.Pop()` -/
-def Gen.pop (cmp : Int → Int → Bool) (s : Rec) : Option (Rec × Int) :=
-  let n : Int := (s.data.length : Int) - 1
-  match (recOps cmp).swap s 0 n with
+/-- `Pop(h)` -/
+def GenI.pop {σ : Type} (I : Iface σ) (s : σ) : Option (σ × Int) :=
+  let n : Int := I.len s - 1
+  match I.ops.swap s 0 n with
   | none => none
   | some s1 =>
-    match downB (recOps cmp) s1 0 n with
+    match downB I.ops s1 0 n with
     | none => none
-    | some (s2, _) => s2.popLast
+    | some (s2, _) => I.pop s2
 
 /-- `Remove(h, i)` -/
-def Gen.remove (cmp : Int → Int → Bool) (s : Rec) (i : Int) : Option (Rec × Int) :=
-  let n : Int := (s.data.length : Int) - 1
-  let s1? : Option Rec :=
+def GenI.remove {σ : Type} (I : Iface σ) (s : σ) (i : Int) : Option (σ × Int) :=
+  let n : Int := I.len s - 1
+  let s1? : Option σ :=
     if n ≠ i then
-      match (recOps cmp).swap s i n with
+      match I.ops.swap s i n with
       | none => none
       | some s1 =>
-        match downB (recOps cmp) s1 i n with
+        match downB I.ops s1 i n with
         | none => none
         | some (s2, true) => some s2
-        | some (s2, false) => upF (recOps cmp) s2 i
+        | some (s2, false) => upF I.ops s2 i
     else some s
   match s1? with
   | none => none
-  | some s1 => s1.popLast
+  | some s1 => I.pop s1
 
 /-- `Fix(h, i)` -/
-def Gen.fix (cmp : Int → Int → Bool) (s : Rec) (i : Int) : Option Rec :=
-  Golib.C04.fix (recOps cmp) s i s.data.length
+def GenI.fix {σ : Type} (I : Iface σ) (s : σ) (i : Int) : Option σ :=
+  Golib.C04.fix I.ops s i (I.len s)
+
+/-- the recording container as an `Interface` -/
+def recIface (cmp : Int → Int → Bool) : Iface Rec where
+  ops := recOps cmp
+  len s := s.data.length
+  push s x := { s with data := s.data ++ [x] }
+  pop s := s.popLast
+
+/-- `Init(h)` on the recording container -/
+def Gen.init (cmp : Int → Int → Bool) (s : Rec) : Option Rec := GenI.init (recIface cmp) s
+
+/-- `Push(h, x)` : `h.Push(x); std_up(h, h.Len()-1)` -/
+def Gen.push (cmp : Int → Int → Bool) (s : Rec) (x : Int) : Option Rec := GenI.push (recIface cmp) s x
+
+/-- `Pop(h)` : `n := h.Len() - 1; h.Swap(0, n); std_down(h, 0, n); return h.Pop()` -/
+def Gen.pop (cmp : Int → Int → Bool) (s : Rec) : Option (Rec × Int) := GenI.pop (recIface cmp) s
+
+/-- `Remove(h, i)` -/
+def Gen.remove (cmp : Int → Int → Bool) (s : Rec) (i : Int) : Option (Rec × Int) :=
+  GenI.remove (recIface cmp) s i
+
+/-- `Fix(h, i)` -/
+def Gen.fix (cmp : Int → Int → Bool) (s : Rec) (i : Int) : Option Rec := GenI.fix (recIface cmp) s i
 
 end Golib.C04
